@@ -9,7 +9,7 @@
    afterwards changes it; that the FILES holding it stay intact while the checkpoint is retained is C09. *)
 From Coq Require Import List NArith Bool.
 Import ListNotations.
-From RV Require Import Base.Bytes Model.Ckpt Model.Gc Proofs.C08_Ckpt Proofs.C09_Gc.
+From RV Require Import Base.Bytes Model.Ckpt Model.Gc Proofs.C08_Ckpt Proofs.C08_Contents Proofs.C09_Gc.
 Open Scope N_scope.
 
 (* checkpoint_exact at the level of database objects: for every reachable database (every history, every schedule of
@@ -54,6 +54,70 @@ Theorem flush_swap_keeps_invariant : forall d a pre cs ca n dir next,
   exists a' pre', Rep (db_flush_swap d n (mk_tables dir next (firstn n (d_sealed d)))) a' pre' (skipn n cs) ca.
 Proof. exact rep_flush_swap. Qed.
 Print Assumptions flush_swap_keeps_invariant.
+
+(* ---------- contents under every background schedule (Proofs/C08_Contents.v) ----------
+   [reachc]: as [reach], but a compaction change set must be a merge of the tables it removes ([merge_ok]: every output
+   entry is an input entry, and for every key an output entry at least as new as each input entry of that key - what
+   kv.MergeEntries + TableWriter.WriteRun produce, [real_compactor_output_is_a_merge]). [reachc d -> reach d]. *)
+
+(* the flush swap changes no read, whatever prefix of the sealed memtables the task had snapshotted when it began *)
+Theorem flush_swap_keeps_contents : forall d a pre cs ca n dir next k,
+  Rep d a pre cs ca -> (n <= length cs)%nat ->
+  db_get (db_flush_swap d n (mk_tables dir next (firstn n (d_sealed d)))) k = db_get d k.
+Proof. exact db_get_flush_swap. Qed.
+Print Assumptions flush_swap_keeps_contents.
+
+(* the apply of a merging compaction changes no read *)
+Theorem merging_compaction_keeps_contents : forall d a pre cs ca removed added k,
+  Rep d a pre cs ca -> uniq (tables_entries (d_tables d)) -> compact_ok d removed added ->
+  db_get (db_compact_apply d removed added) k = db_get d k.
+Proof. exact db_get_compact. Qed.
+Print Assumptions merging_compaction_keeps_contents.
+
+(* the change set of the real compactor's shape - per key of the removed tables the entry with the greatest sequence number,
+   keys ascending, delete markers kept, cut into any runs, each run's end sequence number its maximum - is such a merge *)
+Theorem real_compactor_output_is_a_merge : forall d removed runs,
+  reachc d -> concat (map snd runs) = merge_newest (tables_entries (rem_tables d removed)) ->
+  act_okc d (ACompact removed (mk_added runs)).
+Proof. exact merge_act_okc. Qed.
+Print Assumptions real_compactor_output_is_a_merge.
+
+(* every background action of a database that can exist - locked part of Checkpoint, flush swap, merging compaction -
+   leaves every read unchanged *)
+Theorem background_actions_keep_contents : forall d a k,
+  reachc d -> act_okc d a -> background a -> db_get (do_action d a) k = db_get d k.
+Proof. exact background_keeps_contents. Qed.
+Print Assumptions background_actions_keep_contents.
+
+(* checkpoint_exact over CONTENTS: for every history of writes, background actions under any schedule, checkpoints and
+   restores (of any checkpoint taken so far, any ownership filter, any sizes; the restored database becomes the running
+   one, so chains are included): the running database answers every key it is responsible for as the abstract map does,
+   and every checkpoint taken so far can be read back (no panic, no end-of-file) and its restore answers every owned key
+   as the abstract map did AT THE CHECKPOINT CALL - whatever was written, flushed or compacted afterwards. *)
+Theorem checkpoint_exact_contents : forall s, sreach s ->
+  (forall k, s_scope s k = true -> db_get (s_db s) k = s_map s k) /\
+  (forall d0 m0 sc0, In (d0, m0, sc0) (s_caps s) ->
+     exists es, capture_read d0 = ROk es /\
+       forall o mem wm k, sc0 k = true -> owns o k = true -> db_get (restore_of d0 o mem wm es) k = m0 k).
+Proof. exact C08_Contents.checkpoint_exact_contents. Qed.
+Print Assumptions checkpoint_exact_contents.
+
+(* the object-level statement for the contents-preserving reachability (for composition: C03) *)
+Theorem checkpoint_exact_reachc : forall d o mem wm,
+  reachc d ->
+  exists es, wal_read (cp_wal (snd (db_checkpoint d))) (cp_after (snd (db_checkpoint d))) = ROk es /\
+    let r := fst (db_restore mem wm o (cp_tables (snd (db_checkpoint d))) (cp_walid (snd (db_checkpoint d))) es) in
+    reachc r /\ (forall k, owns o k = true -> db_get r k = db_get d k).
+Proof. exact checkpoint_exact_dbc. Qed.
+Print Assumptions checkpoint_exact_reachc.
+
+(* non-vacuity: two rotations, a flush of both memtables into two tables, a merging compaction into one, a checkpoint, a
+   delete on the original afterwards, a restore: the restored database still holds the value of the checkpoint call *)
+Example contents_history :
+  sreach Ex.s8 /\ length (d_tables (s_db Ex.s5)) = 1%nat /\ length (d_tables (s_db Ex.s4)) = 2%nat /\
+  db_get (s_db Ex.s7) Ex.ka = None /\ db_get (s_db Ex.s8) Ex.ka = Some [50] /\ s_map Ex.s8 Ex.ka = Some [50] /\
+  db_get (s_db Ex.s8) Ex.kb = None.
+Proof. exact Ex.history. Qed.
 
 (* checkpoint_exact at full strength - over the world model with files, retention, crashes, same-process drops and garbage
    collection: "every completed handle that no retention update dropped can be opened and all its files exist". It is FALSE
